@@ -25,10 +25,13 @@ def check(rep, ex: Explorer, cls: str, strict=True, extended=True, keys=False, f
     site = fn_label(ex.prog, qual)
     paths = ex.run(qual, _setup(cls), summaries=wrappers.SUMMARIES, key="pent")
     n_strict = n_ext = 0
-    for p in paths:
-        W = decided(p, ("truthy", "weakly"))
-        if W is None:
-            raise AnalysisError(f"{site}: path does not consult the mode flag")
+    # a path that answers without looking at the mode flag (e.g. one partition test in the mode handed in, "no partition"
+    # answered before the modes part ways) is a path of both modes
+    pw = []
+    for p_ in paths:
+        w_ = decided(p_, ("truthy", "weakly"))
+        pw.extend([(p_, w_)] if w_ is not None else [(p_, False), (p_, True)])
+    for p, W in pw:
         if (W and not extended) or (not W and not strict):
             continue
         cons = [ev for ev, Q in iter_events(p.events) if ev.kind == "summary.consistency"]
@@ -54,6 +57,9 @@ def check(rep, ex: Explorer, cls: str, strict=True, extended=True, keys=False, f
             # KEY.no-reserved (C12.D1): the query must not be stored under a literal key that the base may use
             for k, v in ents:
                 lit = not k.startswith("('d'")
+                if lit and decided(p, ("empty", ("keys", "D"))) is True:
+                    rep.ok("KEY.no-reserved", site, "negated-query key (empty base)", "any key is free in an empty base", extracted=f"literal key {k} on the path where the base has no conditionals")
+                    continue
                 fresh = (not lit) and _fresh_key(k)
                 if not lit and not fresh:
                     cx = _colliding_key(k)
@@ -79,7 +85,9 @@ def check(rep, ex: Explorer, cls: str, strict=True, extended=True, keys=False, f
             for env, val in rows:
                 if pf not in env:
                     raise AnalysisError(f"{site}: strict answer does not depend on the partition verdict")
-                extra = [k for k in env if k not in (pf, ("truthy", "weakly"))]
+                # (whether the base is empty may be looked at - e.g. to choose a key -; the row check below still demands
+                # the same answer for the same partition verdict on either side of it)
+                extra = [k for k in env if k not in (pf, ("truthy", "weakly"), ("empty", ("keys", "D")))]
                 if extra:
                     raise AnalysisError(f"{site}: strict answer depends on {extra[0]!r}")
                 rep.check(val == env[pf], "C01.polarity", site, f"strict: no partition={env[pf]}", "True exactly when base ∪ {(¬B|A)} admits no tolerance partition",
